@@ -536,6 +536,28 @@ def run(chk, facts, tier, only=None):
                 chk.bad("quoting-chain", f"anchor moved: {pr} (and ident_string is not evaluable: {sem_detail})")
             if not probs:
                 chk.ok("quoting-chain", "ident_string quotes iff needs_quote = !is_valid_as_id || is_keyword; is_keyword = KEYWORDS.contains")
+        # a func reference is printed `func "<principal>".<method>`, the method unquoted when ident_string leaves it so: after a dot the
+        # name must still lex as Dot, Id (a float regex that swallows `.e5` would take the dot away)
+        ids_h = c.fn(r"pretty::candid::ident_string$")
+        try:
+            it_d = Interp(c)
+            bad_d = None
+            for nm_ in ("a", "e5", "E10", "e2e_test", "e", "E", "x_1", "_e1", "e0", "inf", "nan"):
+                if it_d.call_fn(ids_h, [nm_]) != nm_:
+                    continue
+                try:
+                    toks_ = model.tokenize('"p".' + nm_)
+                except LexError as e_:
+                    toks_ = e_
+                kinds_ = [t_[0] for t_ in toks_] if isinstance(toks_, list) else None
+                if kinds_ is None or kinds_[-2:] != ["Dot", "Id"] and bad_d is None:
+                    bad_d = (nm_, toks_)
+            chk.expect(bad_d is None, "method-after-dot:lexes-as-dot-id",
+                       f"the method name `{bad_d and bad_d[0]}` is printed unquoted after the dot of a func reference, but `\"p\".{bad_d and bad_d[0]}` lexes "
+                       f"as {bad_d and bad_d[1]} instead of … Dot Id: the printed reference does not parse back",
+                       ok_detail="unquoted names after `.` lex as Dot, Id (11 samples incl. e5 / E10)")
+        except NotEvaluable:
+            pass
         # is_valid_as_id accepts only strings the lexer reads as one Id (or reserved-word) token: bounded enumeration
         h = c.fn(r"pretty::candid::is_valid_as_id$")
         chk.analysed(h["key"])
